@@ -27,6 +27,10 @@ SHAPES = [
     ("uri", [[0, 1]] * 3, False, T, dict(budget=1800, shard=8)),
     ("uri_pf", [[0, 1], [0, 1]], True, T, dict(budget=1800, shard=6)),
     ("uri_pf", [[0, 0]] * 3, False, T, dict(budget=1800, shard=8)),
+    ("prefix", [[2, 0], [2, 0]], False, T, dict(budget=1800, shard=8)),
+    ("curie", [[1, 1]] * 3, False, T, dict(budget=3000, shard=10)),
+    ("uri", [[0, 2], [0, 2]], True, T, dict(budget=3000, shard=10)),
+    ("uri_pf", [[0, 1]] * 3, False, T, dict(budget=3000, shard=10)),
 ]
 
 
